@@ -17,7 +17,8 @@ GROUPS = [
  _e("emcy_clr", "COEmcyClr", 1, _DV, ["a", "b"], props=_T),
  _e("emcy_get", "COEmcyGet", 2, [], [], props=_T),
  _e("emcy_cnt", "COEmcyCnt", 3, [], ["a"], props=_T),
- _e("emcy_reset", "COEmcyReset", 4, _DV, ["a"], timeout=1200, object_bits=12, props=_T20),
+# (COEmcyReset with 8 errors and frames, non-silent: cbmc does not finish within 80 min - not registered; the 5-error group emcy_reset5 and the
+#  8-error silent group emcy_reset_silent stand for it)
  _e("emcy_reset_silent", "COEmcyReset", 4, _DV, ["a"], timeout=1200, object_bits=12, props=_T20, defs=["VW_OP=4", "CO_EMCY_N=8", "VW_SILENT_ONLY"]),
  _e("emcy_set5", "COEmcySet", 0, _DV + ["COEmcyHistAdd"], ["a", "b"], props=_Q, defs=_n5(0), bounded=_B5),
  _e("emcy_clr5", "COEmcyClr", 1, _DV, ["a", "b"], props=_Q, defs=_n5(1), bounded=_B5),
